@@ -403,6 +403,26 @@ def rand_multilevel(rng, levels, last_all_atom, squash=False, coarse_squash=Fals
     return base, blocks
 
 
+def reuse_names(blocks):
+    """rename the bead names every non-final block introduces to A, B, C, ... (in sorted order), so that the names of one
+    level are used again on the next level; the definitions of the next block are renamed accordingly"""
+    import re
+    pool = ['A', 'B', 'C', 'D', 'E', 'F', 'G', 'H']
+    out = [list(b) for b in blocks]
+    for lv in range(len(out) - 1):
+        used = sorted(set(re.findall(r'\[#([A-Za-z0-9]+)', ','.join(d.split('=', 1)[1] for d in out[lv]))))
+        if not used or len(used) > len(pool):
+            continue
+        ren = dict(zip(used, pool))
+        out[lv] = [d.split('=', 1)[0] + '=' + re.sub(r'\[#([A-Za-z0-9]+)', lambda m: '[#' + ren[m.group(1)], d.split('=', 1)[1]) for d in out[lv]]
+        nxt = []
+        for d in out[lv + 1]:
+            nm, body = d.split('=', 1)
+            nxt.append('#' + ren.get(nm[1:], nm[1:]) + '=' + body)
+        out[lv + 1] = nxt
+    return out
+
+
 def join_blocks(base, blocks):
     return base + ''.join('.{' + ','.join(b) + '}' for b in blocks)
 
